@@ -1298,6 +1298,32 @@ def simp(v):
             return ("bool", "Or", tuple(hit[2]) + (tuple(miss[2]) if miss[0] == "bool" and miss[1] == "Or" else (miss,)))
     if k == "bool" and v[1] == "Or" and any(x[0] == "bool" and x[1] == "Or" for x in v[2]):
         return ("bool", "Or", tuple(y for x in v[2] for y in (x[2] if x[0] == "bool" and x[1] == "Or" else (x,))))
+    # ---- stdlib spellings of a comprehension: map(f, S) / filter(p, S) / list(<generator>) (values only, nothing is run) ----
+    if k == "call" and v[1] in (("global", "map"), ("global", "filter")) and len(v[2]) == 2 and not v[3] and v[2][1][0] != "star":
+        f_, seq_ = v[2]
+        bv = None
+        if f_[0] == "lambda" and len(f_[1]) == 1:
+            bv, body = f_[1][0], f_[2]
+        elif f_[0] in ("attr", "global") and v[1][1] == "map" and f_ != ("const", None):
+            bv = ("bv", "_m", next(_fresh))
+            body = simp(("meth", f_[1], f_[2], (bv,), ())) if f_[0] == "attr" else simp(("call", f_, (bv,), ()))
+        if bv is not None:
+            if v[1][1] == "map":
+                return simp(("comp", "gen", body, ((bv, seq_, ()),)))
+            return simp(("comp", "gen", bv, ((bv, seq_, (body,)),)))
+    if k == "call" and v[1] in (("global", "list"), ("global", "tuple")) and len(v[2]) == 1 and not v[3] and v[2][0][0] == "comp" and v[2][0][1] == "gen":
+        return simp(("comp", "list") + tuple(v[2][0][2:]))
+    # a dict display read with a constant key: {"a": x, "b": y}["a"] / .get("a") is x
+    if (k == "sub" and v[1][0] == "dict" and v[2][0] == "const") or \
+            (k == "meth" and v[2] == "get" and v[1][0] == "dict" and len(v[3]) in (1, 2) and not v[4] and v[3][0][0] == "const"):
+        key_ = v[2] if k == "sub" else v[3][0]
+        pairs = v[1][1]
+        if pairs and all(kk[0] == "const" for kk, _ in pairs):
+            hit = [val for kk, val in pairs if kk == key_]
+            if hit:
+                return hit[-1]
+            if k == "meth":
+                return v[3][1] if len(v[3]) == 2 else ("const", None)
     # a record (namedtuple / dataclass instance built from a known constructor): field access by name or position
     if k == "attr" and v[1][0] == "record":
         for nm, val in v[1][2]:
